@@ -80,7 +80,15 @@ def _worker(args):
                 res = mod.replay(json.loads(json.dumps(spec)))
                 stats.replay_probe += 1
                 if res.digest != digest:
-                    errors.append((i, f"replay-fidelity probe: digest {res.digest} != {digest}"))
+                    # Either the harness is not deterministic (a fault), or the library keeps state across objects
+                    # (a module-level memo that was cold during the run and is warm now shifts the line count at
+                    # which an interrupt strikes). Two more executions tell the two apart: a warm library is stable.
+                    r2 = mod.replay(json.loads(json.dumps(spec)))
+                    r3 = mod.replay(json.loads(json.dumps(spec)))
+                    if r2.digest == r3.digest == res.digest:
+                        stats.probes["library_keeps_state_across_runs_cold_vs_warm"] += 1
+                    else:
+                        errors.append((i, f"replay-fidelity probe: digests {digest} / {res.digest} / {r2.digest} / {r3.digest}"))
             except Exception:
                 errors.append((i, "replay-fidelity probe: " + traceback.format_exc()))
         if not stats.samples and getattr(stats, "last_exec", None) is not None:
